@@ -176,11 +176,39 @@ def step (s : St) (w : List String) : St × String :=
             pure (if pn.children = some a then Store.Slot.kids p else Store.Slot.loc)
         match slot with
         | .ok slot =>
+          -- the caller's list reference afterwards (a variable of the caller, not part of the store): the first
+          -- element that stayed, as the specification's merge says
+          let frm := match s.sp.sibsOf? a, s.sp.sibsOf? b with
+            | some (l, i), some (dl, d) =>
+              match headId (Forest.merge (l.drop i) dl d).1 with
+              | some h => toString h
+              | none => "null"
+            | _, _ => "?"
           match s.m.move s.m.fuel slot (some a) b with
-          | .ok r => finish s (.ok r.1) sp' (toString r.2)
-          | x => (s, line (resName x) s.m "-" "ok" sp')
+          | .ok r => ({ m := r.1, sp := sp' }, line s!"ok:from={frm}" r.1 (toString r.2) s!"ok:from={frm}" sp')
+          | x => (s, line (resName x) s.m "-" s!"ok:from={frm}" sp')
         | x => (s, line (resName x) s.m "-" "ok" sp')
     | _, _ => (s, "bad-op")
+  | ["n", "swap", a, b] =>
+    match tok s a, tok s b with
+    | some a, some b =>
+      match s.sp.swap a b with
+      | none => precond s
+      | some sp' => finish s (s.m.swap s.m.fuel a b) sp' "-"
+    | _, _ => (s, "bad-op")
+  | "n" :: "relink" :: x :: rest =>
+    if rest ≠ [] ∧ rest ≠ ["scramble"] then (s, "bad-op") else
+    match tok s x with
+    | some x =>
+      match s.sp.relink x, s.sp.find? x with
+      | some sp', some t =>
+        -- "scramble": parent and predecessor links of everything below `x` are wiped before the call
+        let m0 : Res Store :=
+          if rest = [] then .ok s.m
+          else (ids t.children).foldlM (fun m i => m.modify i fun y => { y with parent := none, prev := none }) s.m
+        finish s (m0.bind fun m => m.relink m.fuel x) sp' "-"
+      | _, _ => precond s
+    | none => (s, "bad-op")
   | ["n", "fail", k] =>
     match k.toNat? with
     | some k =>
